@@ -32,16 +32,37 @@ theorem OutHd_blanks (P : Char → Prop) (n : Nat) (r : List Char) (h : P ' ') (
   cases n with
   | zero => simpa using hr
   | succ n => intro x hx; simp [List.replicate_succ] at hx; exact hx ▸ h
+theorem OutHd_blanks_pos (P : Char → Prop) (n : Nat) (hn : 0 < n) (r : List Char) (h : P ' ') :
+    OutHd P (List.replicate n ' ' ++ r) := by
+  obtain ⟨k, rfl⟩ : ∃ k, n = k + 1 := ⟨n - 1, by omega⟩
+  intro x hx; simp [List.replicate_succ] at hx; exact hx ▸ h
+/-- at least one blank: what a statement keyword must be followed by -/
+theorem OutHd_kw_blanks (n : Nat) (hn : 0 < n) (r : List Char) :
+    OutHd (fun x => x ∉ identChars) (List.replicate n ' ' ++ r) :=
+  OutHd_blanks_pos _ n hn r (outside_facts ' ' (by decide))
 theorem OutHd.imp {P Q : Char → Prop} {r : List Char} (h : OutHd P r) (hpq : ∀ x, P x → Q x) : OutHd Q r :=
   fun x hx => hpq x (h x hx)
 
 /-! ### components -/
 
-/-- a keyword literal at the very beginning of the remaining input -/
-theorem Ok_kw (env : Env) (c : Char) (s r : List Char) (hc : isWs c = false) (hc' : c ≠ '#') :
-    Ok env 2 {} (.suppress (.lit (c :: s))) { rest := c :: (s ++ r), past := false }
+/-- a statement keyword at the very beginning of the remaining input, followed by the end of the text or a
+    character that is not an identifier character (a blank, `=`, …) -/
+theorem Ok_kw (env : Env) (c : Char) (s r : List Char) (hc : isWs c = false) (hc' : c ≠ '#')
+    (hr : OutHd (fun x => x ∉ identChars) r) :
+    Ok env 2 {} (.suppress (.kw (c :: s) identChars)) { rest := c :: (s ++ r), past := false }
       ({ rest := r, past := false }, []) :=
-  Ok_suppress (Ok_lit env {} (c :: s) _ r (by rw [pre_skip]; exact skipIgn_cons c _ hc hc') rfl)
+  Ok_suppress (Ok_keyword env {} (c :: s) identChars _ r (by rw [pre_skip]; exact skipIgn_cons c _ hc hc') rfl hr)
+
+/-- … it fails when an identifier character follows: the keyword is a proper prefix of a longer name -/
+theorem No_kw_ident (env : Env) (c : Char) (s : List Char) (x : Char) (r : List Char) (hc : isWs c = false)
+    (hc' : c ≠ '#') (hx : x ∈ identChars) :
+    No env 2 {} (.suppress (.kw (c :: s) identChars)) { rest := c :: (s ++ x :: r), past := false } :=
+  No_suppress (No_keyword_ident env {} (c :: s) identChars _ x r (by rw [pre_skip]; exact skipIgn_cons c _ hc hc') hx)
+
+/-- … and when the text does not start with the keyword -/
+theorem No_kw (env : Env) (s : List Char) (p : Pos) (h : stripPrefix s (skipIgn p.rest) = none) :
+    No env 2 {} (.suppress (.kw s identChars)) p :=
+  No_suppress (No_keyword env {} s identChars p (by rw [pre_skip]; exact h))
 
 theorem join2 (a b : List Char) : String.join [String.ofList a, String.ofList b] = String.ofList (a ++ b) := by
   simp [String.join, String.ofList_append]
@@ -176,15 +197,15 @@ theorem EolTail_comment (e : Nat) (comment : List Char) (h : '\n' ∉ comment) :
 
 /-! ### statement bodies -/
 
-/-- a statement alternative `Group(tag(Suppress(Literal s) + …))` fails when the text does not start with `s` -/
+/-- a statement alternative `Group(tag(Suppress(Keyword s) + …))` fails when the text does not start with `s` -/
 theorem No_gts (env : Env) (t : String) (s : List Char) (gs : List G) (p : Pos)
     (h : stripPrefix s (skipIgn p.rest) = none) :
-    No env 6 {} (.group (.tag t (.seq (.suppress (.lit s) :: gs)))) p :=
-  No_group (No_tag (No_seq (NoSeq_head (No_suppress (No_lit env {} s p (by rw [pre_skip]; exact h))))))
+    No env 6 {} (.group (.tag t (.seq (.suppress (.kw s identChars) :: gs)))) p :=
+  No_group (No_tag (No_seq (NoSeq_head (No_kw env s p h))))
 
 theorem No_gts_past (env : Env) (t : String) (s : List Char) (gs : List G) (p : Pos) (h : p.past = true) :
-    No env 6 {} (.group (.tag t (.seq (.suppress (.lit s) :: gs)))) p :=
-  No_group (No_tag (No_seq (NoSeq_head (No_suppress (No_lit_past env {} s p h)))))
+    No env 6 {} (.group (.tag t (.seq (.suppress (.kw s identChars) :: gs)))) p :=
+  No_group (No_tag (No_seq (NoSeq_head (No_suppress (No_keyword_past env {} s identChars p h)))))
 
 /-- nothing of `pil_stmt` matches once the virtual end-of-input line end has been consumed -/
 theorem No_stmt_end (env : Env) : No env 20 {} pil_stmt { rest := [], past := true } := by
@@ -252,11 +273,11 @@ def dlText (a : Nat) (c : Char) (m : List Char) (st : Bool) (b : Nat) (sign : Ch
   List.replicate a ' ' ++ (c :: m ++ (star st ++ (List.replicate b ' ' ++ (sign :: (List.replicate cc ' ' ++ (X ++ tail))))))
 
 def dlBody (kw : List Char) : G :=
-  .group (.tag "dl-domain" (.seq [.suppress (.lit kw), pil_domain, .suppress pil_assign, pil_dlength,
+  .group (.tag "dl-domain" (.seq [.suppress (.kw kw identChars), pil_domain, .suppress pil_assign, pil_dlength,
     .many1 (.suppress .lineEnd)]))
 
 theorem Ok_dl_body (env : Env) (kc : Char) (ks : List Char) (hk : isWs kc = false) (hk' : kc ≠ '#')
-    (a : Nat) (c : Char) (m : List Char) (st : Bool) (b : Nat) (sign : Char) (hs : sign = '=' ∨ sign = ':')
+    (a : Nat) (ha : 0 < a) (c : Char) (m : List Char) (st : Bool) (b : Nat) (sign : Char) (hs : sign = '=' ∨ sign = ':')
     (cc : Nat) (X tail : List Char) (NL : Nat)
     (hc : c ∈ identChars) (hm : ∀ x ∈ m, x ∈ identChars)
     (hlen : Ok env NL {} pil_dlength { rest := List.replicate cc ' ' ++ (X ++ tail), past := false }
@@ -268,7 +289,7 @@ theorem Ok_dl_body (env : Env) (kc : Char) (ks : List Char) (hk : isWs kc = fals
         [.grp [.tok "dl-domain", .tok (String.ofList (c :: m ++ star st)), .tok (String.ofList X)]]) := by
   unfold dlBody dlText
   have h1 := Ok_kw env kc ks (List.replicate a ' ' ++ (c :: m ++ (star st ++ (List.replicate b ' ' ++
-    (sign :: (List.replicate cc ' ' ++ (X ++ tail))))))) hk hk'
+    (sign :: (List.replicate cc ' ' ++ (X ++ tail))))))) hk hk' (OutHd_kw_blanks a ha _)
   have h2 := Ok_domain env a c m st _ hc hm (OutHd_sign b sign hs (List.replicate cc ' ' ++ (X ++ tail)))
   have h3 := Ok_assign env b sign hs (List.replicate cc ' ' ++ (X ++ tail))
   have h5 := Ok_eol env tail htail
@@ -371,7 +392,7 @@ theorem No_sl_kw (env : Env) (kw T2 : List Char)
     simp [stripPrefix]
 
 /-- `sl_domain` fails on `sequence name = <digits>…`: the constraint must be letters -/
-theorem No_sl_digits (env : Env) (a : Nat) (c : Char) (m : List Char) (st : Bool) (b : Nat) (sign : Char)
+theorem No_sl_digits (env : Env) (a : Nat) (ha : 0 < a) (c : Char) (m : List Char) (st : Bool) (b : Nat) (sign : Char)
     (hs : sign = '=' ∨ sign = ':') (cc : Nat) (dc : Char) (dm tail : List Char)
     (hc : c ∈ identChars) (hm : ∀ x ∈ m, x ∈ identChars) (hd : dc ∈ pp_nums) :
     No env 14 {} pil_sl_domain
@@ -379,6 +400,7 @@ theorem No_sl_digits (env : Env) (a : Nat) (c : Char) (m : List Char) (st : Bool
   unfold pil_sl_domain dlText pil_constraint
   have h1 := Ok_kw env 's' ['e', 'q', 'u', 'e', 'n', 'c', 'e'] (List.replicate a ' ' ++ (c :: m ++ (star st ++
     (List.replicate b ' ' ++ (sign :: (List.replicate cc ' ' ++ (dc :: dm ++ tail))))))) (by decide) (by decide)
+    (OutHd_kw_blanks a ha _)
   have h2 := Ok_domain env a c m st _ hc hm (OutHd_sign b sign hs (List.replicate cc ' ' ++ (dc :: dm ++ tail)))
   have h3 := Ok_assign env b sign hs (List.replicate cc ' ' ++ (dc :: dm ++ tail))
   have hdf := ident_facts dc (nums_facts dc hd).1
@@ -390,7 +412,7 @@ theorem No_sl_digits (env : Env) (a : Nat) (c : Char) (m : List Char) (st : Bool
 
 /-! ### sequence-constraint statements -/
 
-theorem Ok_sl_stmt (env : Env) (a : Nat) (c : Char) (m : List Char) (st : Bool) (b : Nat) (sign : Char)
+theorem Ok_sl_stmt (env : Env) (a : Nat) (ha : 0 < a) (c : Char) (m : List Char) (st : Bool) (b : Nat) (sign : Char)
     (hs : sign = '=' ∨ sign = ':') (cc : Nat) (kc : Char) (km tail : List Char)
     (hc : c ∈ identChars) (hm : ∀ x ∈ m, x ∈ identChars)
     (hkc : kc ∈ pp_alphas) (hkm : ∀ x ∈ km, x ∈ pp_alphas)
@@ -402,6 +424,7 @@ theorem Ok_sl_stmt (env : Env) (a : Nat) (c : Char) (m : List Char) (st : Bool) 
   unfold pil_stmt pil_sl_domain dlText pil_constraint
   have h1 := Ok_kw env 's' ['e', 'q', 'u', 'e', 'n', 'c', 'e'] (List.replicate a ' ' ++ (c :: m ++ (star st ++
     (List.replicate b ' ' ++ (sign :: (List.replicate cc ' ' ++ (kc :: km ++ tail))))))) (by decide) (by decide)
+    (OutHd_kw_blanks a ha _)
   have h2 := Ok_domain env a c m st _ hc hm (OutHd_sign b sign hs (List.replicate cc ' ' ++ (kc :: km ++ tail)))
   have h3 := Ok_assign env b sign hs (List.replicate cc ' ' ++ (kc :: km ++ tail))
   have h4 := Ok_class env pp_alphas cc kc km tail (fun x hx => (alphas_facts x hx).1) hkc hkm
@@ -421,7 +444,7 @@ theorem Ok_sl_stmt (env : Env) (a : Nat) (c : Char) (m : List Char) (st : Bool) 
 def slTail (e : Nat) (s2 : Char) (f : Nat) (dc : Char) (dm tail : List Char) : List Char :=
   List.replicate e ' ' ++ (s2 :: (List.replicate f ' ' ++ (dc :: dm ++ tail)))
 
-theorem Ok_sl_len_stmt (env : Env) (a : Nat) (c : Char) (m : List Char) (st : Bool) (b : Nat) (sign : Char)
+theorem Ok_sl_len_stmt (env : Env) (a : Nat) (ha : 0 < a) (c : Char) (m : List Char) (st : Bool) (b : Nat) (sign : Char)
     (hs : sign = '=' ∨ sign = ':') (cc : Nat) (kc : Char) (km : List Char) (e : Nat) (s2 : Char)
     (hs2 : s2 = '=' ∨ s2 = ':') (f : Nat) (dc : Char) (dm tail : List Char)
     (hc : c ∈ identChars) (hm : ∀ x ∈ m, x ∈ identChars)
@@ -438,6 +461,7 @@ theorem Ok_sl_len_stmt (env : Env) (a : Nat) (c : Char) (m : List Char) (st : Bo
   have h1 := Ok_kw env 's' ['e', 'q', 'u', 'e', 'n', 'c', 'e'] (List.replicate a ' ' ++ (c :: m ++ (star st ++
     (List.replicate b ' ' ++ (sign :: (List.replicate cc ' ' ++ (kc :: km ++
       (List.replicate e ' ' ++ (s2 :: (List.replicate f ' ' ++ (dc :: dm ++ tail))))))))))) (by decide) (by decide)
+    (OutHd_kw_blanks a ha _)
   have h2 := Ok_domain env a c m st _ hc hm (OutHd_sign b sign hs (List.replicate cc ' ' ++ (kc :: km ++
       (List.replicate e ' ' ++ (s2 :: (List.replicate f ' ' ++ (dc :: dm ++ tail)))))))
   have h3 := Ok_assign env b sign hs (List.replicate cc ' ' ++ (kc :: km ++
@@ -475,13 +499,14 @@ theorem No_missing_assign (env : Env) (a : Nat) (c : Char) (m : List Char) (b : 
   have hsk : skipIgn (['l', 'e', 'n', 'g', 't', 'h'] ++ T) = 'l' :: ('e' :: 'n' :: 'g' :: 't' :: 'h' :: T) :=
     skipIgn_cons 'l' _ (by decide) (by decide)
   have nk : ∀ (t : String) (s : List Char) (gs : List G), stripPrefix s ('l' :: ('e' :: 'n' :: 'g' :: 't' :: 'h' :: T)) = none →
-      No env 6 {} (.group (.tag t (.seq (.suppress (.lit s) :: gs))))
+      No env 6 {} (.group (.tag t (.seq (.suppress (.kw s identChars) :: gs))))
         { rest := ['l', 'e', 'n', 'g', 't', 'h'] ++ T, past := false } :=
     fun t s gs h => No_gts env t s gs _ (by rw [hsk]; exact h)
   -- `dl_domain`, keyword `length`: fails at the assignment sign
   have hr : OutHd (fun x => x ∉ identChars ∧ x ≠ '*') (List.replicate (b + 1) ' ' ++ (dc :: dm ++ ['\n'])) :=
     OutHd_cons _ _ _ ⟨outside_facts ' ' (by decide), by decide⟩
   have d1 := Ok_kw env 'l' ['e', 'n', 'g', 't', 'h'] T (by decide) (by decide)
+    (by rw [← hT]; exact OutHd_kw_blanks (a + 1) (Nat.succ_pos a) _)
   have d2 := Ok_domain env (a + 1) c m false _ hc hm hr
   have d3 : No env 5 {} (.suppress pil_assign)
       { rest := List.replicate (b + 1) ' ' ++ (dc :: dm ++ ['\n']), past := false } :=
@@ -588,7 +613,7 @@ theorem parse_stmt (kw T2 : List Char) (hkw : ∃ kc ks, kw = kc :: ks ∧ isWs 
   have hd := Ok_document pil_env N (kc :: ks ++ T2) kc (ks ++ T2) ts (skipIgn_cons kc _ h1 h2) h3 hstmt
   exact parseDoc_ok pil_env pil_grammar _ _ _ ts ht hd (by omega)
 
-theorem dl_parse (kw : List Char) (hkw : Kw kw) (a : Nat) (c : Char) (m : List Char) (st : Bool) (b : Nat)
+theorem dl_parse (kw : List Char) (hkw : Kw kw) (a : Nat) (ha : 0 < a) (c : Char) (m : List Char) (st : Bool) (b : Nat)
     (sign : Char) (hs : sign = '=' ∨ sign = ':') (cc : Nat) (X tail : List Char) (NL NS : Nat)
     (hc : c ∈ identChars) (hm : ∀ x ∈ m, x ∈ identChars)
     (hlen : Ok pil_env NL {} pil_dlength { rest := List.replicate cc ' ' ++ (X ++ tail), past := false }
@@ -599,7 +624,7 @@ theorem dl_parse (kw : List Char) (hkw : Kw kw) (a : Nat) (c : Char) (m : List C
     parseDoc pil_env pil_grammar (String.ofList (kw ++ dlText a c m st b sign cc X tail)) =
       some [.grp [.tok "dl-domain", .tok (String.ofList (c :: m ++ star st)), .tok (String.ofList X)]] := by
   obtain ⟨kc, ks, rfl, h1, h2, h3⟩ := hkw.head
-  have hbody := Ok_dl_body pil_env kc ks h1 h2 a c m st b sign hs cc X tail NL hc hm hlen htail
+  have hbody := Ok_dl_body pil_env kc ks h1 h2 a ha c m st b sign hs cc X tail NL hc hm hlen htail
   have hstmt := Ok_dl_stmt pil_env (kc :: ks) _ hkw _ NS _ hsl hbody
   apply parse_stmt (kc :: ks) _ ⟨kc, ks, rfl, h1, h2, h3⟩ _ _ hstmt (by omega)
   have hk : '\t' ∉ kc :: ks := by rcases hkw with e | e | e <;> rw [e] <;> decide
